@@ -1,1 +1,219 @@
-// contract harnesses for trust-runtime/src/retain (included by the verification hook)
+// Contract harnesses for crates/trust-runtime/src/retain.rs  (C10)
+//
+// RetainReader:  pre  offset <= data.len()  (established by new(), preserved by every read)
+//                post Ok(s)  => s == data[off .. off+n], offset' == off + n
+//                     Err    => offset' == off  (nothing consumed); never an out-of-bounds index,
+//                               for EVERY requested length (usize::MAX included)
+// Value codec:   decode_value(encode_value(v)) == v bit for bit and consumes exactly the encoding.
+// Hostile input: decode_value never panics and never requests an allocation that is not
+//                proportional to the input.
+
+use super::*;
+use crate::error::RuntimeError;
+use crate::value::{
+    DateTimeValue, DateValue, Duration, LDateTimeValue, LDateValue, LTimeOfDayValue, TimeOfDayValue, Value,
+};
+
+const DN: usize = 12;
+
+// @unit id=retain.reader.read_bytes props=C10 tier=quick kind=bounded bound="data<=12 bytes; offset and requested length full usize" fn=RetainReader::read_bytes
+#[kani::proof]
+fn retain_reader_read_bytes() {
+    let data: [u8; DN] = kani::any();
+    let dlen: usize = kani::any();
+    kani::assume(dlen <= DN);
+    let off: usize = kani::any();
+    kani::assume(off <= dlen);
+    let n: usize = kani::any();
+    let mut r = RetainReader { data: &data[..dlen], offset: off };
+    let res = r.read_bytes(n);
+    let fits = n <= dlen - off;
+    let ok = match &res {
+        Ok(s) => fits && s.len() == n && r.offset == off + n && (n == 0 || (s[0] == data[off] && s[n - 1] == data[off + n - 1])),
+        Err(RuntimeError::RetainStore(_)) => !fits && r.offset == off,
+        Err(_) => false,
+    };
+    kani::cover!(fits && n > 1);
+    kani::cover!(!fits && n == usize::MAX);
+    std::mem::forget(res);
+    assert!(ok, "read_bytes returns exactly data[off..off+n] and advances, or fails without consuming; never indexes out of bounds");
+}
+
+// @unit id=retain.reader.ints props=C10 tier=quick kind=bounded bound="data<=12 bytes; offset full" fn=RetainReader::read_u8,RetainReader::read_u16,RetainReader::read_u32,RetainReader::read_u64,RetainReader::read_i64
+#[kani::proof]
+fn retain_reader_ints() {
+    let data: [u8; DN] = kani::any();
+    let dlen: usize = kani::any();
+    kani::assume(dlen <= DN);
+    let off: usize = kani::any();
+    kani::assume(off <= dlen);
+    let rem = dlen - off;
+    let mut r = RetainReader { data: &data[..dlen], offset: off };
+    let a = r.read_u16();
+    let ok_a = match &a {
+        Ok(v) => rem >= 2 && *v == (data[off] as u16 | (data[off + 1] as u16) << 8) && r.offset == off + 2,
+        Err(_) => rem < 2 && r.offset == off,
+    };
+    std::mem::forget(a);
+    let mut r = RetainReader { data: &data[..dlen], offset: off };
+    let b = r.read_u32();
+    let ok_b = match &b {
+        Ok(v) => rem >= 4 && *v == u32::from_le_bytes([data[off], data[off + 1], data[off + 2], data[off + 3]]) && r.offset == off + 4,
+        Err(_) => rem < 4 && r.offset == off,
+    };
+    std::mem::forget(b);
+    let mut r = RetainReader { data: &data[..dlen], offset: off };
+    let c = r.read_i64();
+    let ok_c = match &c {
+        Ok(v) => rem >= 8 && r.offset == off + 8 && (*v as u64 & 0xff) as u8 == data[off] && ((*v as u64) >> 56) as u8 == data[off + 7],
+        Err(_) => rem < 8 && r.offset == off,
+    };
+    std::mem::forget(c);
+    kani::cover!(rem >= 8);
+    kani::cover!(rem == 3);
+    assert!(ok_a && ok_b && ok_c, "integers are little-endian, reads are bounds-checked and consume exactly their width");
+}
+
+// one harness per tag keeps Value's discriminant concrete
+macro_rules! roundtrip {
+    ($name:ident, $mk:expr, $ty:ty, $pat:pat => $same:expr) => {
+        #[kani::proof]
+        fn $name() {
+            let x: $ty = kani::any();
+            let v: Value = ($mk)(x);
+            let mut out = Vec::new();
+            let e = encode_value(&mut out, &v);
+            let enc_ok = matches!(&e, Ok(()));
+            std::mem::forget(e);
+            assert!(enc_ok, "every retainable scalar encodes");
+            let mut r = RetainReader::new(&out);
+            let d = decode_value(&mut r);
+            let ok = match &d { Ok($pat) => ($same)(x), _ => false };
+            let consumed = r.offset == out.len();
+            std::mem::forget(d);
+            assert!(ok, "decode(encode(v)) == v, bit for bit, same tag");
+            assert!(consumed, "decoding consumes exactly the encoding");
+            kani::cover!(out.len() >= 2);
+        }
+    };
+}
+
+// @unit id=retain.rt.bool props=C10 tier=quick kind=proof fn=encode_value,decode_value
+roundtrip!(retain_rt_bool, Value::Bool, bool, Value::Bool(y) => |x: bool| *y == x);
+// @unit id=retain.rt.sint props=C10 tier=quick kind=proof fn=encode_value,decode_value
+roundtrip!(retain_rt_sint, Value::SInt, i8, Value::SInt(y) => |x: i8| *y == x);
+// @unit id=retain.rt.int props=C10 tier=quick kind=proof fn=encode_value,decode_value
+roundtrip!(retain_rt_int, Value::Int, i16, Value::Int(y) => |x: i16| *y == x);
+// @unit id=retain.rt.dint props=C10 tier=quick kind=proof fn=encode_value,decode_value
+roundtrip!(retain_rt_dint, Value::DInt, i32, Value::DInt(y) => |x: i32| *y == x);
+// @unit id=retain.rt.lint props=C10 tier=quick kind=proof fn=encode_value,decode_value
+roundtrip!(retain_rt_lint, Value::LInt, i64, Value::LInt(y) => |x: i64| *y == x);
+// @unit id=retain.rt.usint props=C10 tier=thorough kind=proof fn=encode_value,decode_value
+roundtrip!(retain_rt_usint, Value::USInt, u8, Value::USInt(y) => |x: u8| *y == x);
+// @unit id=retain.rt.uint props=C10 tier=thorough kind=proof fn=encode_value,decode_value
+roundtrip!(retain_rt_uint, Value::UInt, u16, Value::UInt(y) => |x: u16| *y == x);
+// @unit id=retain.rt.udint props=C10 tier=thorough kind=proof fn=encode_value,decode_value
+roundtrip!(retain_rt_udint, Value::UDInt, u32, Value::UDInt(y) => |x: u32| *y == x);
+// @unit id=retain.rt.ulint props=C10 tier=quick kind=proof fn=encode_value,decode_value
+roundtrip!(retain_rt_ulint, Value::ULInt, u64, Value::ULInt(y) => |x: u64| *y == x);
+// @unit id=retain.rt.real props=C10 tier=quick kind=proof fn=encode_value,decode_value
+roundtrip!(retain_rt_real, Value::Real, f32, Value::Real(y) => |x: f32| y.to_bits() == x.to_bits());
+// @unit id=retain.rt.lreal props=C10 tier=quick kind=proof fn=encode_value,decode_value
+roundtrip!(retain_rt_lreal, Value::LReal, f64, Value::LReal(y) => |x: f64| y.to_bits() == x.to_bits());
+// @unit id=retain.rt.byte props=C10 tier=thorough kind=proof fn=encode_value,decode_value
+roundtrip!(retain_rt_byte, Value::Byte, u8, Value::Byte(y) => |x: u8| *y == x);
+// @unit id=retain.rt.word props=C10 tier=thorough kind=proof fn=encode_value,decode_value
+roundtrip!(retain_rt_word, Value::Word, u16, Value::Word(y) => |x: u16| *y == x);
+// @unit id=retain.rt.dword props=C10 tier=thorough kind=proof fn=encode_value,decode_value
+roundtrip!(retain_rt_dword, Value::DWord, u32, Value::DWord(y) => |x: u32| *y == x);
+// @unit id=retain.rt.lword props=C10 tier=quick kind=proof fn=encode_value,decode_value
+roundtrip!(retain_rt_lword, Value::LWord, u64, Value::LWord(y) => |x: u64| *y == x);
+// @unit id=retain.rt.time props=C10 tier=quick kind=proof fn=encode_value,decode_value
+roundtrip!(retain_rt_time, |n| Value::Time(Duration::from_nanos(n)), i64, Value::Time(y) => |x: i64| y.as_nanos() == x);
+// @unit id=retain.rt.ltime props=C10 tier=thorough kind=proof fn=encode_value,decode_value
+roundtrip!(retain_rt_ltime, |n| Value::LTime(Duration::from_nanos(n)), i64, Value::LTime(y) => |x: i64| y.as_nanos() == x);
+// @unit id=retain.rt.date props=C10 tier=thorough kind=proof fn=encode_value,decode_value
+roundtrip!(retain_rt_date, |n| Value::Date(DateValue::new(n)), i64, Value::Date(y) => |x: i64| y.ticks() == x);
+// @unit id=retain.rt.ldate props=C10 tier=thorough kind=proof fn=encode_value,decode_value
+roundtrip!(retain_rt_ldate, |n| Value::LDate(LDateValue::new(n)), i64, Value::LDate(y) => |x: i64| y.nanos() == x);
+// @unit id=retain.rt.tod props=C10 tier=quick kind=proof fn=encode_value,decode_value
+roundtrip!(retain_rt_tod, |n| Value::Tod(TimeOfDayValue::new(n)), i64, Value::Tod(y) => |x: i64| y.ticks() == x);
+// @unit id=retain.rt.ltod props=C10 tier=thorough kind=proof fn=encode_value,decode_value
+roundtrip!(retain_rt_ltod, |n| Value::LTod(LTimeOfDayValue::new(n)), i64, Value::LTod(y) => |x: i64| y.nanos() == x);
+// @unit id=retain.rt.dt props=C10 tier=thorough kind=proof fn=encode_value,decode_value
+roundtrip!(retain_rt_dt, |n| Value::Dt(DateTimeValue::new(n)), i64, Value::Dt(y) => |x: i64| y.ticks() == x);
+// @unit id=retain.rt.ldt props=C10 tier=quick kind=proof fn=encode_value,decode_value
+roundtrip!(retain_rt_ldt, |n| Value::Ldt(LDateTimeValue::new(n)), i64, Value::Ldt(y) => |x: i64| y.nanos() == x);
+// @unit id=retain.rt.char props=C10 tier=thorough kind=proof fn=encode_value,decode_value
+roundtrip!(retain_rt_char, Value::Char, u8, Value::Char(y) => |x: u8| *y == x);
+// @unit id=retain.rt.wchar props=C10 tier=quick kind=proof fn=encode_value,decode_value
+roundtrip!(retain_rt_wchar, Value::WChar, u16, Value::WChar(y) => |x: u16| *y == x);
+
+// @unit id=retain.rt.null_and_refs props=C10 tier=quick kind=proof fn=encode_value,decode_value
+#[kani::proof]
+fn retain_rt_null_and_refs() {
+    let mut out = Vec::new();
+    let e = encode_value(&mut out, &Value::Null);
+    assert!(matches!(&e, Ok(())));
+    std::mem::forget(e);
+    let mut r = RetainReader::new(&out);
+    let d = decode_value(&mut r);
+    let ok = matches!(&d, Ok(Value::Null)) && r.offset == out.len();
+    std::mem::forget(d);
+    assert!(ok);
+    let mut out2 = Vec::new();
+    let e2 = encode_value(&mut out2, &Value::Reference(None));
+    let refused = matches!(&e2, Err(RuntimeError::RetainStore(_)));
+    std::mem::forget(e2);
+    assert!(refused, "references are never written to the retain file");
+    kani::cover!(out.len() == 1);
+}
+
+// Hostile scalar bytes: any tag byte followed by up to 9 arbitrary bytes decodes to a value or an
+// error without panicking (the container tags Array/Struct/Enum/String are the header harness below).
+// @unit id=retain.decode.scalar_total props=C10 tier=quick kind=bounded bound="tag byte full (container/string tags excluded), <= 9 payload bytes" timeout=900 fn=decode_value,RetainReader::*
+#[kani::proof]
+fn retain_decode_scalar_total() {
+    let data: [u8; 10] = kani::any();
+    let dlen: usize = kani::any();
+    kani::assume(dlen <= 10);
+    let tag = data[0];
+    kani::assume(!(tag == 24 || tag == 25 || tag == 28 || tag == 29 || tag == 30));
+    let mut r = RetainReader::new(&data[..dlen]);
+    let d = decode_value(&mut r);
+    let is_ok = d.is_ok();
+    let in_bounds = r.offset <= dlen;
+    kani::cover!(is_ok && tag == 5);
+    kani::cover!(!is_ok && dlen > 0 && tag >= 1 && tag <= 23);
+    kani::cover!(!is_ok && tag == 0);
+    std::mem::forget(d);
+    assert!(in_bounds, "the reader never runs past the data");
+}
+
+// Hostile container header: an Array tag with arbitrary element / dimension counts must fail with
+// an error and must not request memory that is not proportional to the input.
+// (run with --malloc-fail-assert and a 8 MiB single-allocation limit)
+// @unit id=retain.decode.array_header props=C10 tier=quick kind=bounded bound="array tag + symbolic u32 len + symbolic u32 dims + <= 15 trailing bytes" flags=alloc timeout=1200 fn=decode_value
+#[kani::proof]
+#[kani::unwind(4)]
+fn retain_decode_array_header() {
+    let rest: [u8; 23] = kani::any();
+    let dlen: usize = kani::any();
+    kani::assume(dlen >= 8 && dlen <= 23);
+    let mut data = [0u8; 24];
+    data[0] = 28; // ValueTag::Array
+    data[1..24].copy_from_slice(&rest);
+    let len = u32::from_le_bytes([data[1], data[2], data[3], data[4]]);
+    let dims = u32::from_le_bytes([data[5], data[6], data[7], data[8]]);
+    // hostile shapes: a dimension count that cannot be satisfied by the <= 15 bytes that follow the
+    // header (one pair needs 16), or an element count with nothing after the header
+    kani::assume(dims > 0 || (dlen == 8 && len > 0));
+    let mut r = RetainReader::new(&data[..dlen + 1]);
+    let d = decode_value(&mut r);
+    let is_err = d.is_err();
+    kani::cover!(dims == u32::MAX);
+    kani::cover!(dims == 1);
+    kani::cover!(dims == 0 && len == u32::MAX);
+    std::mem::forget(d);
+    assert!(is_err, "a truncated array header is an error (and no allocation beyond the limit was requested)");
+}
